@@ -292,7 +292,8 @@ class ServerProcess:
                  workdir: typing.Optional[str] = None,
                  port: typing.Optional[int] = None,
                  strace_opts: typing.Sequence[str] = (),
-                 name: str = "sp"):
+                 name: str = "sp",
+                 popen_kwargs: typing.Optional[typing.Mapping[str, typing.Any]] = None):
         self._own_workdir = workdir is None
         if workdir is None:
             base = os.environ.get("VERIF_SCRATCH") or "/var/tmp"
@@ -317,6 +318,8 @@ class ServerProcess:
             os.path.join(workdir, name + ".strace") if (strace_expr or self.inject) else None)
         self.cwd = cwd or workdir
         self.extra_env = dict(env or {})
+        # e.g. {"extra_groups": [0, 4242]} to start the server with supplementary groups
+        self.popen_kwargs = dict(popen_kwargs or {})
         self.config = build_config(root, self.port, servertype, tls, conf_overrides,
                                    pidfile=os.path.join(workdir, name + ".pid"))
         with open(self.conf_path, "w") as fp:
@@ -356,7 +359,8 @@ class ServerProcess:
         try:
             self.popen = subprocess.Popen(
                 self.argv(), cwd=self.cwd, env=env, stdin=subprocess.DEVNULL,
-                stdout=out, stderr=err, start_new_session=True, close_fds=True)
+                stdout=out, stderr=err, start_new_session=True, close_fds=True,
+                **self.popen_kwargs)
         finally:
             out.close()
             err.close()
